@@ -24,7 +24,7 @@ Fixpoint find (l : node) (toks : list bytes) (i mi : nat) {struct toks} : option
   end.
 
 Lemma hit_not_no : forall all n mi, hit all n mi <> MNo.
-Proof. intros. unfold hit. destruct (read_params all mi (node_params n)); discriminate. Qed.
+Proof. intros. unfold hit. destruct (read_params all mi (node_plist n)); discriminate. Qed.
 
 Lemma match_find : forall toks all l i mi,
   match_node all l toks i mi =
